@@ -204,6 +204,11 @@ def shapes_set():
         "sroot/Prims.1.0.dsdl": "".join("%s s%d\n%s[2] f%d\n%s[<=2] v%d\n" % (t, i, t, i, t, i) for i, t in enumerate(
             ["bool", "uint1", "uint7", "uint8", "uint24", "uint33", "uint64", "int2", "int8", "int24", "int40", "int64", "float16", "float32", "float64",
              "truncated uint12", "truncated float16"])) + "@sealed\n",
+        # fixed port-IDs (vendor ranges: subjects 6144..7167, services 256..383) on types WITHOUT an integer member: the exported port-ID constant has a type of its own
+        "sroot/6200.PortBool.1.0.dsdl": "bool flag\n@sealed\n",
+        "sroot/6201.PortEmpty.1.0.dsdl": "@sealed\n",
+        "sroot/6202.PortFloat.1.0.dsdl": "float32 f\n@extent 64 * 8\n",
+        "sroot/300.PortSvc.1.0.dsdl": "bool q\n@sealed\n---\nfloat16 r\n@sealed\n",
         "sroot/User.1.0.dsdl": "sroot.TwoEmpties.1.0 a\nsroot.Bytes.1.0 b\nsroot.Prims.1.0[<=2] p\nsroot.BytesU.1.0 u\nsroot.EmptyD.1.0[2] d\n@extent 8000 * 8\n",
     }
     return {"id": "x-shapes", "roots": ["sroot"], "files": f, "meta": {"src": "names", "pos": "type", "cls": "shapes", "kind": "struct", "word": "*", "key": "shapes|extreme structures"}}
